@@ -370,6 +370,8 @@ class Run(RunBase):
             return {"op": "db", "n": rng.randrange(64), "stay": rng.random() < 0.6}
         if self.prop == "C33" and rng.random() < 0.04:
             return {"op": "sweep"}
+        if rng.random() < 0.03:
+            return {"op": "checkpoint", "how": rng.choice(("pickle", "deepcopy"))}
         if self.recent_trials and rng.random() < 0.07:
             # perform a move that was announced by a trial some steps ago (other updates may lie in between)
             a, b = rng.choice(self.recent_trials)
@@ -630,6 +632,23 @@ class Run(RunBase):
         if len(ij) < len(self.mc.jumps):
             self.probes["forbidden-transition"] += 1
         return "T{}:{}".format(len(ij), ",".join(fhex(q) for q in Q[:6]))
+
+    def op_checkpoint(self, index, op):
+        """Crash/restart: the sampler has no save/load of its own, so the only durable form of a running
+        simulation is a pickle (or, in-process, a deep copy) of the live object. The process 'dies'; the run
+        continues with the restored object, whose occupation array is now the caller's array."""
+        if self.prop == "C35":
+            return "skip"
+        import pickle
+        try:
+            dup = pickle.loads(pickle.dumps(self.mc)) if op.get("how") == "pickle" else copy.deepcopy(self.mc)
+        except Exception:
+            # a sampler that cannot be pickled/copied is not a violation of C33/C34: nothing is claimed about it
+            self.probes["checkpoint-unsupported"] += 1
+            return "unsupported"
+        self.mc, self.occ = dup, dup.occ
+        self.faults["restored-from-checkpoint"] += 1
+        return "restored"
 
     def op_sweep(self, index, op):
         """Bounded local exhaustion inside a history: from the current state, every single-site flip and (in
